@@ -188,7 +188,12 @@ func itemsStr(m map[string][]byte) string {
 
 // observe reads the full externally visible state of an open database:
 // Items (with duplicates reported), Count, and Get/Has agreement for the given keys.
-func observe(db *pogreb.DB, probe [][]byte) string {
+func observe(db *pogreb.DB, probe [][]byte) (res string) {
+	defer func() {
+		if e := recover(); e != nil {
+			res = "itemserr=panic:" + strings.ReplaceAll(fmt.Sprint(e), " ", "_")
+		}
+	}()
 	m, dups, err := readAll(db)
 	if err != nil {
 		return "itemserr=" + errStr(err)
